@@ -35,7 +35,7 @@ M1, M2, M3 = "pkg.m1", "pkg.m2", "pkg.m3"
 M0 = "pkg.m"  # a different module whose name is a substring of the others' names
 RX = r"pkg\.r.*"
 ARCH_OPS = [("layer", "L1"), ("layer", "L2"), ("layer", "L3"), ("cm", M1), ("cm", M2), ("cm", [M1]), ("cm", [M2]), ("cm", [M1, M2]),
-            ("rx", RX), ("with_layer",), ("cm", []), ("cm", M0)]
+            ("rx", RX), ("with_layer",), ("cm", []), ("cm", M0), ("cm", [M2, M1])]
 
 
 # ------------------------------------------------------------------- LayeredArchitecture
@@ -309,7 +309,7 @@ def cases(draw):
     kind = draw(st.sampled_from(["arch", "arch", "rule"]))
     if kind == "arch":
         ops = [("layer", "L1"), ("layer", "L2"), ("layer", "L3"), ("cm", M1), ("cm", M2), ("cm", M3), ("cm", [M1]),
-               ("cm", [M2, M3]), ("cm", [M1, M3]), ("cm", [M3]), ("rx", RX), ("rx", r"pkg\.q.*"), ("with_layer",), ("cm", []), ("cm", M0), ("cm", [M0, M2])]
+               ("cm", [M2, M3]), ("cm", [M1, M3]), ("cm", [M3]), ("rx", RX), ("rx", r"pkg\.q.*"), ("with_layer",), ("cm", []), ("cm", M0), ("cm", [M0, M2]), ("cm", [M3, M1]), ("cm", [M2, M0, M1])]
         seq = draw(st.lists(st.sampled_from(ops), min_size=3, max_size=12))
     else:
         seq = [("based_on",), ("layers_that",)] if draw(st.booleans()) else []
